@@ -174,3 +174,11 @@ Theorem C03_in_the_composite_model_the_timer_queue_is_consistent :
   forall v fuel pfuel (p : script), KInv task net logev (run_script v fuel pfuel p).
 Proof. exact composite_KInv. Qed.
 Print Assumptions C03_in_the_composite_model_the_timer_queue_is_consistent.
+
+Theorem C03_in_the_composite_model_success_exactly_at_max_expiry_start :
+  forall fuel pfuel (p : script),
+    let s := run_script current fuel pfuel p in
+    forall n i x ws, In (EFire task logev n i Success x ws) (trace _ _ _ s) ->
+                     n = Z.max x ws \/ In (EWaitCancelled task logev n i) (trace _ _ _ s).
+Proof. intros fuel pfuel p s. exact (proj2 (proj2 (composite_TInv current fuel pfuel p eq_refl))). Qed.
+Print Assumptions C03_in_the_composite_model_success_exactly_at_max_expiry_start.
